@@ -1,4 +1,5 @@
 """C11: csr.Register packing against specs/CsrReg*.tla."""
+import json
 from . import common, hwcheck
 from .common import bits, unbits
 
@@ -40,12 +41,21 @@ def shape_for(leaf):
     return unsigned(leaf["w"])
 
 
-def to_fields(t):
+def to_fields(t, memo=None):
+    """memo (a dict): structurally identical sub-collections become ONE Python object used in several places
+    (an aliased, still acyclic nest - what gpio.Peripheral itself does with its per-pin dict)"""
     if t["k"] == "leaf":
         return csr.Field(Probe, shape_for(t), t["acc"])
+    key = json.dumps(t, sort_keys=True)
+    if memo is not None and key in memo:
+        return memo[key]
     if t["k"] == "dict":
-        return {k: to_fields(c) for k, c in zip(t["keys"], t["kids"])}
-    return [to_fields(c) for c in t["kids"]]
+        out = {k: to_fields(c, memo) for k, c in zip(t["keys"], t["kids"])}
+    else:
+        out = [to_fields(c, memo) for c in t["kids"]]
+    if memo is not None:
+        memo[key] = out
+    return out
 
 
 def walk(t, node):
@@ -64,14 +74,22 @@ def walk(t, node):
 
 def construct(cfg):
     t, how = cfg["tree"], cfg.get("how", "arg")
+    # every other configuration shares structurally identical sub-collections as one object
+    memo = {} if len(json.dumps(t)) % 2 == 0 else None
     if how == "annot" and t["k"] == "dict":
-        ann = {k: to_fields(c) for k, c in zip(t["keys"], t["kids"])}
-        cls = type("AnnReg", (csr.Register,), {"__annotations__": ann})
+        ann = {k: to_fields(c, memo) for k, c in zip(t["keys"], t["kids"])}
+        base = csr.Register
+        if len(t["keys"]) % 2 == 1:
+            # an annotated class derived from another annotated class that has ALREADY been instantiated: the derived
+            # class's own annotations are what counts
+            base = type("BaseReg", (csr.Register,), {"__annotations__": {"zz": csr.Field(Probe, unsigned(3), "rw")}})
+            base(access="rw")
+        cls = type("AnnReg", (base,), {"__annotations__": ann})
         return cls(access=cfg["access"])
     if how == "subclass":
         cls = type("SubReg", (csr.Register,), {}, access=cfg["access"])
-        return cls(to_fields(t))
-    return csr.Register(to_fields(t), access=cfg["access"])
+        return cls(to_fields(t, memo))
+    return csr.Register(to_fields(t, memo), access=cfg["access"])
 
 
 class Adapter:
